@@ -125,6 +125,7 @@ L1(act, o) ==
              item == IF a = "ReplaceItemViaPointer" THEN act[3]
                      ELSE IF act[3] < 0 \/ act[3] >= Len(c) THEN NULL ELSE c[act[3] + 1] IN
          IF p = NULL \/ r = NULL \/ item = NULL \/ item \notin Range(c) THEN Unchanged(h, roots, o) /\ o.res = Flag(FALSE)
+         ELSE IF r = item THEN Unchanged(h, roots, o) /\ o.res = Flag(TRUE)          \* an item replaced by itself stays where it is
          ELSE /\ o.res = Flag(TRUE)
               /\ Kids(h2, p) = [c EXCEPT ![IndexIn(c, item)] = r]
               /\ Frame(h, h2, {p}, {}, Subtree(h, item), {}) /\ o.roots = roots \ {r}
@@ -136,7 +137,9 @@ L1(act, o) ==
               THEN /\ o.res = Flag(FALSE) /\ o.roots = roots            \* refused: every container unchanged
                    /\ Frame(h, h2, {}, {r}, {}, {})
               ELSE \/ f # 0 /\ Unchanged(h, roots, o) /\ o.res = Flag(FALSE)
-                   \/ /\ o.res = Flag(TRUE)
+                   \/ /\ m = r /\ o.res = Flag(TRUE) /\ Kids(h2, p) = Kids(h, p) /\ h2[r].key = name /\ h2[r].ck = FALSE      \* the member itself: it keeps its place
+                      /\ Frame(h, h2, {p}, {r}, {}, {}) /\ o.roots = roots
+                   \/ /\ m # r /\ o.res = Flag(TRUE)
                       /\ Kids(h2, p) = [Kids(h, p) EXCEPT ![IndexIn(Kids(h, p), m)] = r]
                       /\ h2[r].key = name /\ h2[r].ck = FALSE
                       /\ Frame(h, h2, {p}, {r}, Subtree(h, m), {}) /\ o.roots = roots \ {r}
@@ -215,14 +218,14 @@ Add ==
      /\ \E p \in MaybeNull(Objs), key \in KeyArgs, i \in MaybeNull(Loose) :
         /\ (p # NULL /\ i # NULL /\ p # i) => CanHold(p, i)
         /\ Take(<<"AddItemToObjectCS", p, key, i, 0>>, AddItemToObject(h, roots, p, key, i, TRUE, 0))
-  \/ /\ (F("ref") \/ F("refarr")) /\ HasFree(h, 1)
+  \/ /\ (F("ref") \/ F("refarr") \/ F("refobj")) /\ HasFree(h, 1)
      /\ \/ \E p \in MaybeNull(Arrs), item \in MaybeNull(Live(h)), f \in Fails(1) :
              /\ (F("arr") \/ F("refarr"))
              /\ (p # NULL /\ item # NULL) => p \notin SubAll(h, item, N)
              /\ TakeF(<<"AddItemReferenceToArray", p, item, f>>, f, AddItemReferenceToArray(h, roots, p, item, f),
                       AddItemReferenceToArray(h, roots, p, item, 0))
         \/ \E p \in MaybeNull(Objs), key \in KeyArgs, item \in MaybeNull(Live(h)), f \in Fails(2) :
-             /\ F("obj") /\ F("ref")
+             /\ ((F("obj") /\ F("ref")) \/ F("refobj"))
              /\ (p # NULL /\ item # NULL) => p \notin SubAll(h, item, N)
              /\ TakeF(<<"AddItemReferenceToObject", p, key, item, f>>, f, AddItemReferenceToObject(h, roots, p, key, item, f),
                       AddItemReferenceToObject(h, roots, p, key, item, 0))
@@ -289,6 +292,20 @@ Replace ==
           /\ TakeF(<<IF cs THEN "ReplaceItemInObjectCaseSensitive" ELSE "ReplaceItemInObject", p, name, r, f>>, f,
                    ReplaceItemInObject(h, roots, p, name, r, cs, f), ReplaceItemInObject(h, roots, p, name, r, cs, 0))
 
+\* an item given as its own replacement (the library answers true and changes nothing; by key: the member gets a fresh copy of its key)
+ReplaceSelf ==
+  /\ (F("replace") \/ F("replobj"))
+  /\ \/ \E p \in Conts, item \in Live(h) :
+          /\ F("ptr") /\ item \in Range(Kids(h, p))
+          /\ Take(<<"ReplaceItemViaPointer", p, item, item>>, ReplaceItemViaPointer(h, roots, p, item, item))
+     \/ \E p \in Arrs, idx \in 0..N :
+          /\ F("arr") /\ idx < Len(Kids(h, p))
+          /\ Take(<<"ReplaceItemInArray", p, idx, Kids(h, p)[idx + 1]>>, ReplaceItemInArray(h, roots, p, idx, Kids(h, p)[idx + 1]))
+     \/ \E p \in Objs, r \in Live(h), cs \in BOOLEAN, f \in Fails(1) :
+          /\ (F("obj") \/ F("replobj")) /\ r \in Range(Kids(h, p)) /\ h[r].key # NoStr /\ ObjectItem(h, p, h[r].key, cs) = r
+          /\ TakeF(<<"ReplaceItemInObjectAlias", p, r, cs, f>>, f, ReplaceItemInObject(h, roots, p, h[r].key, r, cs, f),
+                   ReplaceItemInObject(h, roots, p, h[r].key, r, cs, 0))
+
 SetHelpers ==
   /\ F("sethelpers")
   /\ \/ \E i \in {j \in Live(h) : h[j].k = "num"}, n \in Nums : Take(<<"SetNumberHelper", i, n>>, SetNumber(h, roots, i, n))
@@ -329,6 +346,20 @@ Alias ==
           /\ TakeF(<<"ReplaceItemInObjectAlias", p, r, cs, f>>, f, ReplaceItemInObject(h, roots, p, h[r].key, r, cs, f),
                    ReplaceItemInObject(h, roots, p, h[r].key, r, cs, 0))
 
+\* the key argument points INTO the moved item's own key (a suffix of it): the property allows a key that aliases memory of the item
+Suffix(k, off) == SubSeq(k, off + 1, Len(k))
+AliasAt ==
+  /\ F("suffix")
+  /\ \/ \E p \in Objs, i \in {j \in Loose : h[j].key # NoStr}, f \in Fails(1) : \E off \in 1..Len(h[i].key) :
+          /\ p # i /\ CanHold(p, i)
+          /\ TakeF(<<"AddItemToObjectAliasAt", p, i, off, f>>, f, AddItemToObject(h, roots, p, Suffix(h[i].key, off), i, FALSE, f),
+                   AddItemToObject(h, roots, p, Suffix(h[i].key, off), i, FALSE, 0))
+     \/ \E p \in Objs, r \in {j \in Loose : h[j].key # NoStr}, cs \in BOOLEAN, f \in Fails(1) : \E off \in 1..Len(h[r].key) :
+          /\ CanHold(p, r)
+          /\ LET m == ObjectItem(h, p, Suffix(h[r].key, off), cs) IN m # NULL => Releasable(h, m)
+          /\ TakeF(<<"ReplaceItemInObjectAliasAt", p, r, off, cs, f>>, f, ReplaceItemInObject(h, roots, p, Suffix(h[r].key, off), r, cs, f),
+                   ReplaceItemInObject(h, roots, p, Suffix(h[r].key, off), r, cs, 0))
+
 \* cJSONUtils_SortObject[CaseSensitive]; besides the code's own order every order the property admits
 \* (a sorted permutation; the order among equal keys is open) is an acceptable outcome
 Sort ==
@@ -357,7 +388,7 @@ DupCyclic ==
   /\ Cyclic
   /\ \E item \in Live(h) : IsCont(h[item].k) /\ ~DupOom(h, item, TRUE, 0) /\ TakeF(<<"Duplicate", item, TRUE, 0>>, 0, Duplicate(h, roots, item, TRUE, 0), Duplicate(h, roots, item, TRUE, 0))
 
-Next == \/ ~Cyclic /\ (Create \/ Add \/ Detach \/ Del \/ Insert \/ Replace \/ SetHelpers \/ Bulk \/ Dup \/ Alias \/ Sort \/ EnvMakeCycle)
+Next == \/ ~Cyclic /\ (Create \/ Add \/ Detach \/ Del \/ Insert \/ Replace \/ ReplaceSelf \/ AliasAt \/ SetHelpers \/ Bulk \/ Dup \/ Alias \/ Sort \/ EnvMakeCycle)
         \/ EnvBreakCycle \/ DupCyclic
 
 Init == h = [i \in Node |-> FreeRec] /\ roots = {} /\ res = NULLRES
@@ -430,6 +461,13 @@ Strs1 == {<<120>>}
 StrSeq1 == <<<<120>>>>
 KindsA == {"arr"}
 FeatRK == {"obj", "ref"}
+\* a reference to an item that stands in the middle of another container, with the key copy refused
+FeatRF == {"arr", "refobj", "fail"}
+\* keys "a" and "ba": the suffix of one is the other
+KeySeq7 == <<<<97>>, <<98, 97>>>>
+Keys7 == Range(KeySeq7)
+QKeySeq7 == <<<<97>>, <<98, 97>>, <<65>>>>
+FeatOS == {"obj", "cs", "alias", "suffix", "replace"}
 \* a reference node inherits the constant-key bit of the item it refers to, loses it again when it is given a key of its own
 FeatRC == {"cs", "refarr", "detarr", "replobj"}
 KindsNAO == {"null", "arr", "obj"}
